@@ -14,8 +14,57 @@ HNAME = "harness.conform"
 OPKINDS = ("binop1", "binop2", "unop1", "incdec", "assign2")
 
 
+COMMENT_FORMS = ("block", "multi", "line")
+BODY_KINDS = ("func_open", "decl", "blank_decl", "stmt", "ctrl", "lbrace", "rbrace", "cont", "func_close")
+
+
+def comment_bases(tier):
+    """programs that receive a comment line at every boundary outside a function body"""
+    out = [("maxi", i) for i in range(len(F.maximal_programs()))]
+    out += [("gen", (s, "h")) for s in ((3, 7) if tier == "quick" else (3, 7, 11, 15, 19))]
+    out += [("gen", (s, "c")) for s in ((1,) if tier == "quick" else (1, 2, 5))]
+    return out
+
+
+def comment_base(tier, key):
+    kind, arg = key
+    if kind == "maxi":
+        return F.maximal_programs()[arg]
+    return F.program(arg[0], tier, arg[1])
+
+
+def comment_boundaries(prog):
+    """line indices i such that a comment line may be put in front of line i (or at the end): everywhere after the 42 header
+    except strictly inside a function body -- that includes between a signature and its '{', inside type blocks, between
+    prototypes, before #endif"""
+    out = []
+    n = len(prog.lines)
+    for i in range(12, n + 1):
+        prev = prog.lines[i - 1]
+        cur = prog.lines[i] if i < n else None
+        inside = prev.kind in BODY_KINDS[:-1] and prev.func is not None and cur is not None and cur.kind in BODY_KINDS[1:] and cur.func is not None
+        if not inside and prev.kind != "header":
+            out.append(i)
+    return out
+
+
+def commented(prog, b, form, slot=None):
+    slot = slot or F.Slot("comment", "note")
+    if form == "block":
+        line = F.Line(["/* ", slot, " */"], "comment")
+    elif form == "line":
+        line = F.Line(["// ", slot], "comment")
+    else:
+        line = F.Line(["/*\n** ", slot, "\n*/"], "comment")          # ONE statement over three physical lines
+    q = prog.clone()
+    q.lines = q.lines[:b] + [line] + q.lines[b:]
+    return q, slot
+
+
 def chunks(tier, n, kinds=("c", "c", "c", "h")):
-    out = [dict(maxi=i) for i in range(len(F.maximal_programs()))] + [dict(micro=i) for i in range(len(F.micro_programs()))]
+    out = [dict(maxi=i) for i in range(len(F.maximal_programs()))]
+    out += [dict(commented=list(k) if k[0] == "maxi" else [k[0], list(k[1])], form=f) for k in comment_bases(tier) for f in COMMENT_FORMS]
+    out += [dict(micro=i) for i in range(len(F.micro_programs()))]
     return out + [dict(seed=i, kind=kinds[i % len(kinds)], rot=i // len(kinds) % 3) for i in range(n)]
 
 
@@ -121,6 +170,8 @@ def c07_invariants(prog, o):
 
 
 def run_chunk(chunk, ctx):
+    if "commented" in chunk:
+        return run_commented(chunk, ctx)
     ex = Explorer()
     core.set_run(ex)
     c07 = ctx.get("prop") == "C07"
@@ -170,7 +221,73 @@ def run_chunk(chunk, ctx):
     return res
 
 
+def _ckey(chunk):
+    k = chunk["commented"]
+    return (k[0], k[1] if k[0] == "maxi" else tuple(k[1]))
+
+
+def run_commented(chunk, ctx):
+    """a comment line (one of three forms, symbolic text) at a solver-chosen boundary outside the function bodies of a
+    conforming program: the file stays accepted (C01) and the statement / scope invariants hold (C07)"""
+    ex = Explorer()
+    core.set_run(ex)
+    c07 = ctx.get("prop") == "C07"
+    base = comment_base(ctx["tier"], _ckey(chunk))
+    bs = comment_boundaries(base)
+    slot = F.Slot("comment", "note"[: 1 + len(bs) % 4])
+    col = Collector(HNAME, seed=ctx["seed"], sample_rate=ctx.get("sample_rate", 0.1))
+    cur = {}
+    bound = {}
+
+    def body():
+        cur.clear()
+        b = bs[core.choose("boundary", len(bs))] if len(bs) > 1 else bs[0]
+        prog, _ = commented(base, b, chunk["form"], slot)
+        if "cons" not in bound:
+            n0 = len(ex.solver.assertions())
+            bound["vars"] = slot.bind(ex, "c")
+            bound["cons"] = list(ex.solver.assertions())[n0:]
+        else:
+            ex.solver.add(*bound["cons"])
+        items = []
+        for l in prog.lines:
+            for q in l.parts:
+                items += (list(q) if isinstance(q, str) else (bound["vars"] if q is slot else list(q.default)))
+            items.append("\n")
+        cur["items"] = items
+        meta = dict(chunk, tier=ctx["tier"], boundary=b)
+        cur["meta"] = meta
+        o = P.run_text(prog.name, SymStr(items), keep_tokens=not c07, monitor=c07)
+        vs = c07_invariants(prog, o) if c07 else violations(o)
+        if vs:
+            text = SymStr(items).concretize(ex.model())
+            for fp, what in vs:
+                col.violation(fp + ":comment-" + chunk["form"], what + f" (comment line, form {chunk['form']}, in front of line {b + 1})",
+                              dict(name=prog.name, text=text, c07=meta if c07 else None, suffix=":comment-" + chunk["form"]))
+            cur["viol"] = True
+        return dict(kind=o.kind, errors=[list(e) for e in o.errors])
+
+    def on_path(res, status):
+        if status == "gap":
+            col.gap(str(res)[:100])
+        elif status == "timeout":
+            col.count("slow_paths_not_analysed")
+        elif status == "ok" and not cur.get("viol") and col.want_witness():
+            col.add_witness(dict(name=base.name, text=SymStr(cur["items"]).concretize(ex.model()), c07=cur["meta"] if c07 else None), conc(res, ex.model()))
+    left = max(1.0, min(ctx.get("chunk_time", 120), ctx["deadline"] - time.time()))
+    ex.explore(body, on_path=on_path, max_time=left, path_alarm=10.0)
+    res = col.finish()
+    res["stats"] = ex.stats()
+    return res
+
+
 def replay(case):
+    suffix = case.get("suffix", "")
+    if case.get("c07") and "commented" in case["c07"]:
+        ch = case["c07"]
+        prog, _ = commented(comment_base(ch["tier"], _ckey(ch)), ch["boundary"], ch["form"])
+        o = P.run_text(case["name"], case["text"], monitor=True)
+        return dict(digest=dict(kind=o.kind, errors=[list(e) for e in o.errors]), violations=[[v[0] + suffix, v[1]] for v in c07_invariants(prog, o)])
     if case.get("c07"):
         ch = case["c07"]
         prog = (F.maximal_programs()[ch["maxi"]] if "maxi" in ch else
@@ -179,4 +296,4 @@ def replay(case):
         return dict(digest=dict(kind=o.kind, errors=[list(e) for e in o.errors]), violations=[list(v) for v in c07_invariants(prog, o)])
     o = P.run_text(case["name"], case["text"], keep_tokens=True)
     return dict(digest=dict(kind=o.kind, errors=[list(e) for e in o.errors]),
-                violations=[list(v) for v in violations(o)])
+                violations=[[v[0] + suffix, v[1]] for v in violations(o)])
